@@ -67,6 +67,7 @@ func (actorSelf *ActorDef[T]) Send(message T) {
 	if actorSelf.isClosed {
 		return
 	}
+	verifPoint("a.send.checked", actorSelf)
 
 	actorSelf.ch <- message
 }
@@ -74,6 +75,7 @@ func (actorSelf *ActorDef[T]) Send(message T) {
 // Spawn Spawn a new Actor with parent(this actor)
 func (actorSelf *ActorDef[T]) Spawn(effect func(*ActorDef[T], T)) *ActorDef[T] {
 	newOne := actorSelf.New(effect)
+	verifPoint("a.spawn.created", actorSelf)
 	if actorSelf.isClosed {
 		return newOne
 	}
@@ -102,6 +104,7 @@ func (actorSelf *ActorDef[T]) GetID() time.Time {
 // Close Close the Actor
 func (actorSelf *ActorDef[T]) Close() {
 	actorSelf.isClosed = true
+	verifPoint("a.close.flagged", actorSelf)
 
 	close(actorSelf.ch)
 }
